@@ -3,6 +3,8 @@ import PjVerif.Drive.Cal
 import PjVerif.Drive.Graph
 import PjVerif.Drive.Sched
 import PjVerif.Drive.Dump
+import PjVerif.Drive.Query
+import PjVerif.Drive.Clone
 open Lean Pj.Drive
 
 def dispatch (j : Json) : Json :=
@@ -11,6 +13,8 @@ def dispatch (j : Json) : Json :=
   | "graph" => runGraph j
   | "sched" => runSched j
   | "dumpenv" => runDump j
+  | "query" => runQuery j
+  | "clone" => runClone j
   | f => mkObj [("id", fld j "id"), ("error", .str s!"unknown family {f}")]
 
 def main : IO Unit := do
